@@ -6,6 +6,7 @@ mod props;
 mod report;
 mod rng;
 mod memstore;
+mod sqlm;
 
 pub struct Args {
     pub prop: String,
